@@ -16,10 +16,12 @@ const rtosc_arg_val_t* rtosc_arg_val_itr_get(const rtosc_arg_val_itr *itr,
     if(itr->av->type == '-')
     {
         if(rtosc_av_rep_has_delta(itr->av))
+        {
             rtosc_arg_val_range_arg(itr->av, itr->range_i, buffer);
-        else
-            *buffer = itr->av[1];
-        result = buffer;
+            result = buffer;
+        }
+        else // the repeated value may be an array with its elements behind it
+            result = itr->av + 1;
     }
     else result = itr->av;
     return result;
